@@ -358,6 +358,70 @@ def seek_restores_oracle(case, toks, items):
     return v
 
 
+def two_reader_oracle(case, toks, items, items2):
+    """Histories in which TWO readers (A over the case's input, B over the input of the `T` operation) share the three
+    record sets: each reader on its own must behave as the abstract reader says (its operations, in order, with the
+    dumps of the sets it filled last), whatever the other reader did with the shared sets in between; a set nobody has
+    filled is empty.  Captured positions belong to the reader they were taken from."""
+    v = Verdict()
+    ops = case['ops']
+    specs = {'A': items, 'B': items2}
+    proj = {'A': ([], []), 'B': ([], [])}
+    owner = {0: None, 1: None, 2: None}
+    active, have_b = 'A', False
+    for idx, op in enumerate(ops):
+        if idx >= len(toks):
+            break
+        tok = strip_growth(toks[idx])
+        c = op[0]
+        if c == 'T':
+            if have_b:
+                v.domain_end = 'more than two readers'
+                return v
+            have_b, active = True, 'B'
+        elif c == 'w':
+            if have_b:
+                active = 'B' if active == 'A' else 'A'
+        elif c == 'i':
+            o = owner[int(op[1:])]
+            if o is None:
+                if tok in ('PANIC', 'HANG'):
+                    v.failures.append('%s at op %d (%s)' % (tok, idx, op))
+                    return v
+                if tok != 'I:':
+                    v.failures.append('op %d %s: a record set that was never filled shows records: %s' % (idx, op, tok[:80]))
+                    return v
+            elif o == '?':
+                if tok in ('PANIC', 'HANG'):
+                    v.failures.append('%s at op %d (%s)' % (tok, idx, op))
+                    return v
+            else:
+                proj[o][0].append(op)
+                proj[o][1].append(toks[idx])
+        elif c in 'hj':
+            if tok in ('PANIC', 'HANG'):
+                v.failures.append('%s at op %d (%s)' % (tok, idx, op))
+                return v
+        else:
+            proj[active][0].append(op)
+            proj[active][1].append(toks[idx])
+            if c in 'se':
+                j = int(op[1:].split('.')[0])
+                if tok.startswith('S'):
+                    owner[j] = active
+                elif owner[j] not in (None, active):
+                    owner[j] = '?'
+    for x in ('A', 'B'):
+        if not proj[x][0]:
+            continue
+        vx = history_oracle(dict(case, ops=proj[x][0]), proj[x][1], specs[x], positions=True, err_fields=True, sets=True)
+        v.nontrivial = v.nontrivial or (vx.nontrivial and have_b)
+        if vx.failures:
+            v.failures.append('reader %s (its own operations, in order): %s' % (x, vx.failures[0]))
+            return v
+    return v
+
+
 def is_truncation(fmt, f, recs, owned):
     """the returned record is what a genuine record looks like when the input is cut off inside it"""
     for it in recs:
@@ -380,6 +444,7 @@ def membership_oracle(case, toks, items):
     fmt = case['fmt']
     v = Verdict()
     recs = [it for it in items if it[0] == 'rec']
+    k_min = 0
     for idx, tok in enumerate(toks):
         tok = strip_growth(tok)
         if tok in ('PANIC', 'HANG'):
@@ -400,6 +465,30 @@ def membership_oracle(case, toks, items):
                     kind = 'a truncated copy of a record of the input'
                 v.failures.append('op %d: returned %s: %s' % (idx, kind, str(f)[:160]))
                 return v
+        # a record set always holds a contiguous run of S's records (theorem *_batch_contiguous_after_faults), whatever
+        # errors, seeks or refills happened before
+        if tok.startswith('I:') and len(got) > 1:
+            c = len(got)
+            if not any(all(rec_matches(fmt, got[i][0], recs[k0 + i], False) for i in range(c))
+                       for k0 in range(0, len(recs) - c + 1)):
+                v.failures.append('op %d: the record set holds %d records that are not a contiguous run of the input\'s records' % (idx, c))
+                return v
+        # "... or further genuine records IN ORDER": between two seeks the records returned by single reads form an
+        # increasing selection of S's records, whatever errors happened in between (records may be lost after an
+        # error, never delivered twice or out of order).  With equal records in the input the earliest possible
+        # match is taken, which is the most permissive reading.
+        if tok == 'K':
+            k_min = 0
+        elif tok.startswith('S'):
+            pass          # the records of a batch are only visible through a later dump: not used for the order
+        elif tok.startswith(('R:', 'O:')):
+            f, owned = got[0]
+            j = next((j for j in range(k_min, len(recs)) if rec_matches(fmt, f, recs[j], owned)), None)
+            if j is None:
+                v.failures.append('op %d: a record was returned out of order or twice (no seek in between): %s; all earlier single '
+                                  'reads since the last seek are accounted for by records before #%d' % (idx, str(f)[:120], k_min))
+                return v
+            k_min = j + 1
     return v
 
 
